@@ -205,6 +205,28 @@ def intended (src : Bytes) (stmts : List Stmt) : Option Statement := do
 
 /-! ### the oracle clause -/
 
+/-- the two SELECTs have the same clause structure (items with the same star flags and aliases,
+    same sources and join kind, the same clauses present, the same sort directions); only the
+    expressions inside may differ -/
+def selectSkeletonEq (a b : Select) : Bool :=
+  a.distinct == b.distinct &&
+  a.items.length == b.items.length &&
+  ((a.items.zip b.items).all fun (x, y) => x.star == y.star && x.alias == y.alias) &&
+  tableRefEq a.source b.source &&
+  (match a.join, b.join with
+   | none, none => true
+   | some j, some k => j.left == k.left && tableRefEq j.table k.table
+   | _, _ => false) &&
+  a.where_.isSome == b.where_.isSome && a.groupBy.length == b.groupBy.length &&
+  a.orderBy.length == b.orderBy.length &&
+  ((a.orderBy.zip b.orderBy).all fun (x, y) => x.asc == y.asc && x.nullsFirst == y.nullsFirst) &&
+  a.limit.isSome == b.limit.isSome
+
+def statementSkeletonEq (a b : Statement) : Bool :=
+  a.ctes.length == b.ctes.length &&
+  ((a.ctes.zip b.ctes).all fun (x, y) => x.1 == y.1 && selectSkeletonEq x.2 y.2) &&
+  selectSkeletonEq a.body b.body
+
 /-- `COMPILE` results without parameters: a successful result reads as the intended statement.
     Programs with lets are compared only when no column takes its name from the source text
     (the text of a reference to a let differs from the text of its value). -/
@@ -226,7 +248,10 @@ def intendedClauses (src : Bytes) (params : List (Bytes × Bytes)) (impl : Strin
         | some got, some want =>
           if statementEq got want then []
           else if stmtsHaveKeywordFn parsed.1 then ["c01-keyword-function-name"]      -- known finding K4
-          else ["c05-intended-statement-differs"]
+          else
+            -- same chain of SELECTs with the same clauses: what differs is a scalar expression (C01)
+            (if statementSkeletonEq got want then ["c01-expression-differs"] else []) ++
+            ["c05-intended-statement-differs"]
         | some _, none => ["c05-intended-statement-missing"]
         | none, _ => []          -- reported by c05-parse
   | _ => []
